@@ -225,6 +225,19 @@ pub fn ptr_as_ref_unwrap<'a, T>(p: *const T) -> (r: &'a T)
     unsafe { p.as_ref().unwrap() }
 }
 
+/// `p.is_aligned()`: alignment of the POINTEE type (not a fixed 8)
+pub assume_specification<T>[<*const T>::is_aligned](p: *const T) -> (r: bool)
+    ensures r == (p@.addr as int % align_of::<T>() as int == 0);
+
+/// `x.next_multiple_of(m)`: panics for m == 0 and (with overflow checks) when the result does not fit:
+/// both are obligations here, like every arithmetic overflow
+pub assume_specification[u32::next_multiple_of](x: u32, m: u32) -> (r: u32)
+    requires m != 0, ((x as int + m as int - 1) / (m as int)) * (m as int) <= u32::MAX,
+    ensures r as int == ((x as int + m as int - 1) / (m as int)) * (m as int);
+pub assume_specification[usize::next_multiple_of](x: usize, m: usize) -> (r: usize)
+    requires m != 0, ((x as int + m as int - 1) / (m as int)) * (m as int) <= usize::MAX,
+    ensures r as int == ((x as int + m as int - 1) / (m as int)) * (m as int);
+
 /// `*p` (read through a thin pointer).
 #[verifier::external_body]
 pub fn read_raw<T: Copy>(p: *const T) -> (r: T)
